@@ -31,6 +31,10 @@ async def debounced_sorted_prefix(
     """
 
     buffer: list[T] = []
+    # True once "__COMPLETE__" has been consumed and the buffer flushed. The debouncer's
+    # own `is_complete` turns true as soon as the window ends, i.e. *before* the marker
+    # reaches this loop; an item consumed in between must still join the sorted burst.
+    flushed = False
     debouncer = Debouncer(debounce_seconds, max_window_seconds)
     merged = merge_generators(inner, debouncer.aiter())
 
@@ -40,10 +44,11 @@ async def debounced_sorted_prefix(
             for buffered_item in buffer:
                 yield buffered_item
             buffer = []
+            flushed = True
         else:
             # item is T after checking != "__COMPLETE__"
             actual_item = cast(T, item)
-            if debouncer.is_complete:
+            if flushed:
                 yield actual_item
             else:
                 debouncer.extend_window()
